@@ -1,1 +1,7 @@
 -- modules of work area Alerts (add imports here)
+import AM.Base.AlertsMap
+import AM.Model.Alert
+import AM.Model.Inhibit
+import AM.Lemmas.Inhibit
+import AM.Lemmas.InhibitLegacy
+import AM.Props.C03
